@@ -90,7 +90,20 @@ def run(ctx):
             r1.ok("trad-flag", "traditional-joining flag comes from the option")
         else:
             r1.violation("trad-flag", "traditional-joining flag is %r" % (trad,), site_of(b, sbb))
-    r1.floor(4, "first, first-order, base, trad-flag")
+    # "with smart-quote curling applied": the quoter runs under exactly the option, before the word is taken
+    q = c17.quoter_fn(prog)
+    qc = [(bb, t) for (bb, t) in b.calls() if callee_name(t) == q]
+    if len(qc) != 1:
+        r1.violation("curling", "the quoter is called %d times in the fixed builder" % len(qc), common.fn_line(prog, fk))
+    else:
+        g = guards_of(b, qc[0][0])
+        good = [x for x in g if x[0].k == "call" and x[0].a[0].endswith("get_smart_quote") and x[1] is True]
+        extra = [x for x in g if x not in good]
+        if good and not extra and firsts and b.dominates(good[0][2], firsts[0].outer_bb):
+            r1.ok("curling", "first candidate is taken after the quoter, which runs under exactly get_smart_quote()")
+        else:
+            r1.violation("curling", "the composed text's curling depends on %s" % ([(repr(d)[:60], p_) for d, p_, s_ in extra] or "no option test"), site_of(b, qc[0][0]))
+    r1.floor(5, "first, first-order, base, trad-flag, curling")
 
     # ---------------- R2 at most nine
     r2 = chk.rule("C15.R2", "at most nine candidates at the list constructor on every path",
